@@ -405,11 +405,11 @@ class Model:
     def _rounds(self, guards, pos, initial):
         """shared round loop of initialEnter / processTransitions.
         guards: list of guard events {'pend': [ids], 'cancel': bool, 'issue': [reqs]} in call order."""
-        backup = self.snap_req(); current = []; rounds = []
+        backup = self.snap_req(); current = []; rounds = []; tb = dict(self.targets)
         s = 0
         while s < self.limit and self.queue:
             pending = list(self.queue)
-            for i, r in enumerate(pending): self.apply(r, i)
+            for i, r in enumerate(pending): self.apply(r, len(current) + i)
             now = self.snap_req()
             if now[0] != backup[0] or now[1] != backup[1]:
                 self.queue = []
@@ -421,12 +421,12 @@ class Model:
                 vetoed = any(e['cancel'] for e in evs)
                 rounds.append({'ids': ids, 'vetoed': vetoed, 'guards': evs, 'offset': len(current)})
                 if not vetoed:
-                    current += pending; backup = self.snap_req()
+                    current += pending; backup = self.snap_req(); tb = dict(self.targets)
                 else:
-                    self._restore(backup); self.notes.append('veto'); self.targets = {}
+                    self._restore(backup); self.notes.append('veto'); self.targets = dict(tb)
             else:
                 if now[2] != backup[2]: self.notes.append('remain-only-round')
-                self.queue = []
+                self.queue = []; self.targets = dict(tb)
             s += 1
         if self.queue: self.notes.append('leftover')
         return current, rounds, pos
